@@ -29,6 +29,9 @@ type dlg struct {
 	pinned  bool
 	ended   bool
 	steps   int
+	// subExpires: the Expires header of the answer that establishes a subscription
+	// ("" = 600, "-" = no such header, otherwise the value)
+	subExpires string
 }
 
 type dialogWorld struct {
@@ -447,6 +450,9 @@ func (w *dialogWorld) history(h int) {
 		d := &dlg{n: i, svc: svc, backend: -1, kind: "invite"}
 		if g.R.Intn(4) == 0 && len(w.Svcs[svc].BeUDP) > 0 {
 			d.kind = "subscribe"
+			// the establishing answer promises 600 s, 0 s, 1 s, or says nothing: with the default
+			// dialog timeout of 1200 s the pin outlives the run in every case
+			d.subExpires = []string{"", "", "0", "-", "1"}[g.R.Intn(5)]
 		}
 		d.callID = g.Alnum(6, 16)
 		if g.R.Intn(3) == 0 {
@@ -601,8 +607,15 @@ func (w *dialogWorld) establishSubscribe(d *dlg) {
 		sip.Header{Name: "From", Value: "<" + d.a.uri + ">;tag=" + d.a.tag},
 		sip.Header{Name: "To", Value: "<" + d.b.uri + ">;tag=" + d.b.tag},
 		sip.Header{Name: "Call-ID", Value: d.callID},
-		sip.Header{Name: "CSeq", Value: "1 SUBSCRIBE"},
-		sip.Header{Name: "Expires", Value: "600"},
+		sip.Header{Name: "CSeq", Value: "1 SUBSCRIBE"})
+	switch d.subExpires {
+	case "":
+		resp.Headers = append(resp.Headers, sip.Header{Name: "Expires", Value: "600"})
+	case "-":
+	default:
+		resp.Headers = append(resp.Headers, sip.Header{Name: "Expires", Value: d.subExpires})
+	}
+	resp.Headers = append(resp.Headers,
 		sip.Header{Name: "X-Vf", Value: rid},
 		sip.Header{Name: "Content-Length", Value: "0"})
 	hop.UDP[wire.NextHopPortA].Send(fmt.Sprintf("%s:%d", sv.IP, sv.UDP), resp.Bytes(), rid)
@@ -764,6 +777,12 @@ func scenarioPinTime() int {
 				// that is the promised lifetime of these pins
 				d.expires = 600
 				d.life = 600 * time.Second
+				switch g.R.Intn(3) {
+				case 1: // the answer says Expires: 0 - the promised lifetime is the dialog timeout
+					d.expires, d.life, d.subExpires = 0, timeout, "0"
+				case 2: // the answer carries no Expires at all
+					d.expires, d.life, d.subExpires = 0, timeout, "-"
+				}
 			}
 			t0 := time.Duration(g.R.Intn(1200)) * time.Millisecond
 			evs = append(evs, ptEvent{at: t0, d: d, what: "establish", arg: plan})
